@@ -1,6 +1,25 @@
 """C02 configuration for ./check"""
+import os, subprocess
+
+def fact_f4(root, repo, work, hexe):
+    """F4: package-level variables written outside initialisation (root package and layers/),
+    re-extracted from the repository under test; a line that is not in lib/facts/F4.expected
+    means decoding may now write global state."""
+    env = dict(os.environ); env['VERIF_REPO'] = repo
+    out = subprocess.run([hexe, 'facts4'], stdout=subprocess.PIPE, text=True, env=env, timeout=300).stdout
+    got = [l for l in out.splitlines() if l.strip()]
+    exp = set(l.strip() for l in open(os.path.join(root, 'lib', 'facts', 'F4.expected')) if l.strip())
+    new = [l for l in got if l not in exp]
+    extra = {'F4_lines': len(got), 'F4_new': new}
+    if new:
+        return False, 'source fact F4 changed: package-level state is now written outside initialisation by: ' + '; '.join(new[:8]), extra
+    if not got:
+        return False, 'source fact F4 could not be extracted', extra
+    return True, '', extra
+
 CONF = {
-    'interesting': ['repeat-after-traffic', 'nocopy', 'shared-reader', 'concurrent'],
+    'pre': [fact_f4],
+    'interesting': ['repeat-after-traffic', 'nocopy', 'shared-reader', 'concurrent', 'race-detector'],
     'rule': 'Histories over 1-3 input packets (checksummed Ethernet/IPv4|IPv6/TCP|UDP|ICMP|GRE stacks built by the harness, packet literals of layers/*_test.go parsed at run time, truncations, bit flips, non-Ethernet first layers): decode with any of the 16 option sets, unrelated traffic, decode again (signatures must coincide), every read-only accessor (Layers, String, Dump, VerifyChecksums, flows, GoString, LayerString/LayerDump) on an eager NoCopy packet, and bursts of concurrent readers/decoders. Input buffers live in mmap pages that are write-protected while the library runs, so any store into the caller\'s or the packet\'s buffer - even of an equal value - is observed as a fault.',
     'assumptions': ['source fact F4 (no package-level state written during decoding) is re-extracted from the repository by the fact pass of this check',
                     'the Go memory model, scheduler and race detector are outside the model: "no data race" is proved as emptiness of the readers\' write-sets and exhibited by write-protected pages (buffer) and the -race support run (heap objects)',
